@@ -1006,6 +1006,22 @@ def r_done_lossless(F, R):
                          "length -- half of the distinct strings are cut and the cut-off weight is subtracted from the rest"
                          if dep else ""))
     R.info("R-STATS: %d shrinking calls in MisraGries::done inspected" % n)
+    # new_from sums the rankings of all its sources: a ranking cut short per source (`done().into_iter().take(256)`)
+    # drops the counts of strings that are in no single source's top but dominate the sum
+    nb = codec_body(F, "new_from")
+    if nb is not None:
+        for ctx in all_ctxs(F, nb):
+            for (bi, t) in ctx.body.calls():
+                tag = callee_tag(t.get("callee"))
+                if tag[1] not in ("take", "take_while", "truncate", "step_by", "skip") or not t["args"]:
+                    continue
+                src = nobb(operand_tree(ctx, t["args"][0]))
+                if any(nd[0] == "call" and nd[1] == ("MisraGries", "done") for nd in walk(src)):
+                    R.saw(nb)
+                    R.check("R-STATS", nb.label(), False, construct="the sources' rankings are summed in full",
+                            where="%s:%s" % (ctx.body.file, t["line"]),
+                            detail="%s is applied to a source's ranking (%s) before the sources are summed: a string that is outside that "
+                                   "cut in every source but heaviest in the sum gets no tag" % (tag[1], show(src)[:60]))
 
 
 def r_stats_order(F, R):
